@@ -115,7 +115,7 @@ props["C06"] = {
 }
 
 props["C06"]["manifest"] = {
-    "text": "The 126-row role table (names, arities, ABI classifiers) is regenerated from the code on every run and the table theorems re-checked by the kernel (arity = ABI parameter count, unique names); impls.rs / host.rs / text.rs are mirrored role by role in Lean, with the handle table and a small file system as state, and compared with the real interpreter on sequences of operations over one runtime with arguments drawn from each role's own classifier; contract theorems (every role honours its classifier for all argument values, scalar-indexed text operations, code points, integer parsing, UTF-8 round trip, handle-table invariant, closed handles stay closed) are proved in ZV/Props/C06.lean.",
+    "text": "The 126-row role table (names, arities, ABI classifiers) is regenerated from the code on every run and the table theorems re-checked by the kernel (arity = ABI parameter count, unique names); impls.rs / host.rs / text.rs are mirrored role by role in Lean, with the handle table and a small file system as state, and compared with the real interpreter on sequences of operations over one runtime with arguments drawn from each role's own classifier; contract theorems (every role honours its classifier for all argument values, scalar-indexed text operations, code points, integer parsing, UTF-8 round trip, handle-table invariant, closed handles stay closed, line reads selecting end of input only when nothing is left) are proved in ZV/Props/C06.lean.",
     "note": "Trusted: Lean kernel and the three standard axioms; the harness/driver/table dumper. Not modelled: OS behaviour beyond regular files and missing paths, random_int's value, float arithmetic/rendering (correspondence only), signature validation (C01/C03 streams).",
     "technique": "regenerated table + decide over the whole table, Lean mirror of the host operations with kernel-checked contract theorems, sequence-level differential correspondence",
 }
